@@ -43,6 +43,51 @@
 #ifdef __APPLE__
 #include <dispatch/dispatch.h>
 #endif
+#ifdef SVT_AV1_VERIF
+/* Verification hook (add-only, compiled out unless -DSVT_AV1_VERIF): seeded schedule perturbation at the
+ * synchronisation wrappers. Inactive unless the environment variable SVT_VERIF_PERTURB=<seed>[:<percent>[:<max_us>]] is set. */
+#ifndef _WIN32
+#include <sched.h>
+#include <stdint.h>
+static int      svt_verif_perturb_state = -1; /* -1: environment not read yet, 0: off, 1: on */
+static uint64_t svt_verif_perturb_seed;
+static unsigned svt_verif_perturb_pct = 10, svt_verif_perturb_max_us = 200, svt_verif_perturb_next_tid;
+static void     svt_verif_perturb(void) {
+    static __thread uint64_t s;
+    if (svt_verif_perturb_state == 0)
+        return;
+    if (svt_verif_perturb_state < 0) {
+        const char *e = getenv("SVT_VERIF_PERTURB");
+        if (!e || !*e) {
+            svt_verif_perturb_state = 0;
+            return;
+        }
+        unsigned long long seed = 1;
+        unsigned           pct = 10, mx = 200;
+        sscanf(e, "%llu:%u:%u", &seed, &pct, &mx);
+        svt_verif_perturb_seed   = seed;
+        svt_verif_perturb_pct    = pct;
+        svt_verif_perturb_max_us = mx ? mx : 1;
+        svt_verif_perturb_state  = 1;
+    }
+    if (!s)
+        s = (svt_verif_perturb_seed + 1) * 0x9E3779B97F4A7C15ull +
+            __atomic_add_fetch(&svt_verif_perturb_next_tid, 1, __ATOMIC_RELAXED) * 0xBF58476D1CE4E5B9ull;
+    s ^= s << 13;
+    s ^= s >> 7;
+    s ^= s << 17;
+    if ((s >> 8) % 100 >= svt_verif_perturb_pct)
+        return;
+    if ((s >> 20) & 1)
+        sched_yield();
+    else
+        usleep((useconds_t)((s >> 24) % svt_verif_perturb_max_us));
+}
+#define SVT_VERIF_PERTURB() svt_verif_perturb()
+#else
+#define SVT_VERIF_PERTURB() ((void)0)
+#endif
+#endif /* SVT_AV1_VERIF */
 #if PRINTF_TIME
 #include <time.h>
 #ifdef _WIN32
@@ -215,6 +260,9 @@ EbHandle svt_create_semaphore(uint32_t initial_count, uint32_t max_count) {
  ***************************************/
 EbErrorType svt_post_semaphore(EbHandle semaphore_handle) {
     EbErrorType return_error;
+#ifdef SVT_AV1_VERIF
+    SVT_VERIF_PERTURB();
+#endif
 
 #ifdef _WIN32
     return_error = !ReleaseSemaphore(semaphore_handle, // semaphore handle
@@ -238,6 +286,9 @@ EbErrorType svt_post_semaphore(EbHandle semaphore_handle) {
  ***************************************/
 EbErrorType svt_block_on_semaphore(EbHandle semaphore_handle) {
     EbErrorType return_error;
+#ifdef SVT_AV1_VERIF
+    SVT_VERIF_PERTURB();
+#endif
 
 #ifdef _WIN32
     return_error = WaitForSingleObject((HANDLE)semaphore_handle, INFINITE)
@@ -306,6 +357,9 @@ EbHandle svt_create_mutex(void) {
  ***************************************/
 EbErrorType svt_release_mutex(EbHandle mutex_handle) {
     EbErrorType return_error;
+#ifdef SVT_AV1_VERIF
+    SVT_VERIF_PERTURB();
+#endif
 
 #ifdef _WIN32
     return_error = !ReleaseMutex((HANDLE)mutex_handle) ? EB_ErrorMutexUnresponsive : EB_ErrorNone;
@@ -322,6 +376,9 @@ EbErrorType svt_release_mutex(EbHandle mutex_handle) {
  ***************************************/
 EbErrorType svt_block_on_mutex(EbHandle mutex_handle) {
     EbErrorType return_error;
+#ifdef SVT_AV1_VERIF
+    SVT_VERIF_PERTURB();
+#endif
 
 #ifdef _WIN32
     return_error = WaitForSingleObject((HANDLE)mutex_handle, INFINITE) ? EB_ErrorMutexUnresponsive
@@ -392,6 +449,9 @@ EbErrorType svt_create_cond_var(CondVar *cond_var)
 EbErrorType svt_set_cond_var(CondVar *cond_var, int32_t newval)
 {
     EbErrorType return_error;
+#ifdef SVT_AV1_VERIF
+    SVT_VERIF_PERTURB();
+#endif
 #ifdef _WIN32
     EnterCriticalSection(&cond_var->cs);
     cond_var->val = newval;
@@ -414,6 +474,9 @@ EbErrorType svt_set_cond_var(CondVar *cond_var, int32_t newval)
 EbErrorType svt_wait_cond_var(CondVar *cond_var, int32_t input)
 {
     EbErrorType return_error;
+#ifdef SVT_AV1_VERIF
+    SVT_VERIF_PERTURB();
+#endif
 
 #ifdef _WIN32
 
